@@ -8,8 +8,6 @@ import (
 	"strings"
 
 	"gorm.io/gorm"
-
-	"verif/h"
 )
 
 // obs is what one read path reported, in canonical form.
@@ -22,6 +20,8 @@ type obs struct {
 	nums    []int      // callback batch numbers
 	cbRA    []int64    // RowsAffected seen inside each callback
 	prim    string     // primitive destination value
+	tx      *gorm.DB   // the handle the finisher returned (nil for Rows)
+	root    *gorm.DB   // the plain gorm handle of the environment (ScanRows)
 }
 
 const (
@@ -35,6 +35,7 @@ const (
 
 type pathDef struct {
 	Name     string
+	Root     int // what the chain starts from: the plain handle, Model(&Item{}) or Table("items")
 	Kind     int
 	Inline   bool // condition passed to the finisher instead of Where (skipped for chains without condition)
 	Last     bool
@@ -47,6 +48,12 @@ type pathDef struct {
 	NoSchema bool // the path has no model: orderings that need the schema (clause.PrimaryKey) are skipped
 	Run      func(db *gorm.DB, c Chain, batch int, o *obs)
 }
+
+const (
+	rootPlain = iota
+	rootModel
+	rootTable
+)
 
 const arrayLen = 16
 
@@ -102,8 +109,6 @@ func projC(it Item) string {
 	return fmt.Sprint(*it.C)
 }
 
-func model(db *gorm.DB) *gorm.DB { return db.Model(&Item{}) }
-
 func singleItem(it Item, o *obs) {
 	if !reflect.DeepEqual(it, Item{}) {
 		o.rows = []string{rowKey(it)}
@@ -118,19 +123,21 @@ func singleMap(m map[string]interface{}, o *obs) {
 
 var paths = []pathDef{
 	// ---- every row of the window -------------------------------------------
-	{Name: "Find(&[]Item)", Kind: kMulti, Run: func(db *gorm.DB, c Chain, _ int, o *obs) {
+	{Name: "Find(&[]Item)", Kind: kMulti, Run: func(q *gorm.DB, c Chain, _ int, o *obs) {
 		var d []Item
-		tx := c.apply(db, false).Find(&d)
+		tx := q.Find(&d)
 		o.rows, o.ra, o.err = rowKeys(d), tx.RowsAffected, tx.Error
+		o.tx = tx
 	}},
-	{Name: "Find(&[]Item, cond)", Kind: kMulti, Inline: true, Run: func(db *gorm.DB, c Chain, _ int, o *obs) {
+	{Name: "Find(&[]Item, cond)", Kind: kMulti, Inline: true, Run: func(q *gorm.DB, c Chain, _ int, o *obs) {
 		var d []Item
-		tx := c.apply(db, true).Find(&d, c.inlineArgs()...)
+		tx := q.Find(&d, c.inlineArgs()...)
 		o.rows, o.ra, o.err = rowKeys(d), tx.RowsAffected, tx.Error
+		o.tx = tx
 	}},
-	{Name: "Find(&[]*Item)", Kind: kMulti, Run: func(db *gorm.DB, c Chain, _ int, o *obs) {
+	{Name: "Find(&[]*Item)", Kind: kMulti, Run: func(q *gorm.DB, c Chain, _ int, o *obs) {
 		var d []*Item
-		tx := c.apply(db, false).Find(&d)
+		tx := q.Find(&d)
 		for _, p := range d {
 			if p == nil {
 				o.rows = append(o.rows, "<nil element>")
@@ -139,38 +146,44 @@ var paths = []pathDef{
 			}
 		}
 		o.ra, o.err = tx.RowsAffected, tx.Error
+		o.tx = tx
 	}},
-	{Name: fmt.Sprintf("Find(&[%d]Item)", arrayLen), Kind: kMulti, PadTo: arrayLen, Run: func(db *gorm.DB, c Chain, _ int, o *obs) {
+	{Name: fmt.Sprintf("Find(&[%d]Item)", arrayLen), Kind: kMulti, PadTo: arrayLen, Run: func(q *gorm.DB, c Chain, _ int, o *obs) {
 		var d [arrayLen]Item
-		tx := c.apply(db, false).Find(&d)
+		tx := q.Find(&d)
 		o.rows, o.ra, o.err = rowKeys(d[:]), tx.RowsAffected, tx.Error
+		o.tx = tx
 	}},
-	{Name: "Find(&[2]Item)", Kind: kMulti, PadTo: 2, TruncAt: 2, Run: func(db *gorm.DB, c Chain, _ int, o *obs) {
+	{Name: "Find(&[2]Item)", Kind: kMulti, PadTo: 2, TruncAt: 2, Run: func(q *gorm.DB, c Chain, _ int, o *obs) {
 		var d [2]Item
-		tx := c.apply(db, false).Find(&d)
+		tx := q.Find(&d)
 		o.rows, o.ra, o.err = rowKeys(d[:]), tx.RowsAffected, tx.Error
+		o.tx = tx
 	}},
-	{Name: "Model.Find(&[]map)", Kind: kMulti, Run: func(db *gorm.DB, c Chain, _ int, o *obs) {
+	{Name: "Model.Find(&[]map)", Root: rootModel, Kind: kMulti, Run: func(q *gorm.DB, c Chain, _ int, o *obs) {
 		var d []map[string]interface{}
-		tx := c.apply(model(db), false).Find(&d)
+		tx := q.Find(&d)
 		o.rows, o.ra, o.err = mapRows(d), tx.RowsAffected, tx.Error
+		o.tx = tx
 	}},
-	{Name: `Table("items").Find(&[]map)`, Kind: kMulti, NoSchema: true, Run: func(db *gorm.DB, c Chain, _ int, o *obs) {
+	{Name: `Table("items").Find(&[]map)`, Root: rootTable, Kind: kMulti, NoSchema: true, Run: func(q *gorm.DB, c Chain, _ int, o *obs) {
 		var d []map[string]interface{}
-		tx := c.apply(db.Table("items"), false).Find(&d)
+		tx := q.Find(&d)
 		o.rows, o.ra, o.err = mapRows(d), tx.RowsAffected, tx.Error
+		o.tx = tx
 	}},
-	{Name: "Model.Find(&[]Partial)", Kind: kMulti, Proj: projPartial, Run: func(db *gorm.DB, c Chain, _ int, o *obs) {
+	{Name: "Model.Find(&[]Partial)", Root: rootModel, Kind: kMulti, Proj: projPartial, Run: func(q *gorm.DB, c Chain, _ int, o *obs) {
 		var d []Partial
-		tx := c.apply(model(db), false).Find(&d)
+		tx := q.Find(&d)
 		for _, p := range d {
 			o.rows = append(o.rows, partialKey(p))
 		}
 		o.ra, o.err = tx.RowsAffected, tx.Error
+		o.tx = tx
 	}},
-	{Name: "Model.Rows+ScanRows(&Item)", Kind: kMulti, Run: func(db *gorm.DB, c Chain, _ int, o *obs) {
+	{Name: "Model.Rows+ScanRows(&Item)", Root: rootModel, Kind: kMulti, Run: func(q *gorm.DB, c Chain, _ int, o *obs) {
 		o.ra = -1
-		rows, err := c.apply(model(db), false).Rows()
+		rows, err := q.Rows()
 		if err != nil {
 			o.err = err
 			return
@@ -178,7 +191,7 @@ var paths = []pathDef{
 		defer rows.Close()
 		for rows.Next() {
 			var it Item
-			if err := db.ScanRows(rows, &it); err != nil {
+			if err := o.root.ScanRows(rows, &it); err != nil {
 				o.err = err
 				return
 			}
@@ -186,9 +199,9 @@ var paths = []pathDef{
 		}
 		o.err = rows.Err()
 	}},
-	{Name: "Model.Rows+ScanRows(&map)", Kind: kMulti, Run: func(db *gorm.DB, c Chain, _ int, o *obs) {
+	{Name: "Model.Rows+ScanRows(&map)", Root: rootModel, Kind: kMulti, Run: func(q *gorm.DB, c Chain, _ int, o *obs) {
 		o.ra = -1
-		rows, err := c.apply(model(db), false).Rows()
+		rows, err := q.Rows()
 		if err != nil {
 			o.err = err
 			return
@@ -196,7 +209,7 @@ var paths = []pathDef{
 		defer rows.Close()
 		for rows.Next() {
 			m := map[string]interface{}{}
-			if err := db.ScanRows(rows, &m); err != nil {
+			if err := o.root.ScanRows(rows, &m); err != nil {
 				o.err = err
 				return
 			}
@@ -204,14 +217,15 @@ var paths = []pathDef{
 		}
 		o.err = rows.Err()
 	}},
-	{Name: "Model.Scan(&[]Item)", Kind: kMulti, Run: func(db *gorm.DB, c Chain, _ int, o *obs) {
+	{Name: "Model.Scan(&[]Item)", Root: rootModel, Kind: kMulti, Run: func(q *gorm.DB, c Chain, _ int, o *obs) {
 		var d []Item
-		tx := c.apply(model(db), false).Scan(&d)
+		tx := q.Scan(&d)
 		o.rows, o.ra, o.err = rowKeys(d), tx.RowsAffected, tx.Error
+		o.tx = tx
 	}},
-	{Name: "Model.Scan(&[]*Item)", Kind: kMulti, Thorough: true, Run: func(db *gorm.DB, c Chain, _ int, o *obs) {
+	{Name: "Model.Scan(&[]*Item)", Root: rootModel, Kind: kMulti, Thorough: true, Run: func(q *gorm.DB, c Chain, _ int, o *obs) {
 		var d []*Item
-		tx := c.apply(model(db), false).Scan(&d)
+		tx := q.Scan(&d)
 		for _, p := range d {
 			if p == nil {
 				o.rows = append(o.rows, "<nil element>")
@@ -220,207 +234,237 @@ var paths = []pathDef{
 			}
 		}
 		o.ra, o.err = tx.RowsAffected, tx.Error
+		o.tx = tx
 	}},
-	{Name: "Model.Scan(&[]map)", Kind: kMulti, Run: func(db *gorm.DB, c Chain, _ int, o *obs) {
+	{Name: "Model.Scan(&[]map)", Root: rootModel, Kind: kMulti, Run: func(q *gorm.DB, c Chain, _ int, o *obs) {
 		var d []map[string]interface{}
-		tx := c.apply(model(db), false).Scan(&d)
+		tx := q.Scan(&d)
 		o.rows, o.ra, o.err = mapRows(d), tx.RowsAffected, tx.Error
+		o.tx = tx
 	}},
-	{Name: "Model.Scan(&[]Partial)", Kind: kMulti, Proj: projPartial, Run: func(db *gorm.DB, c Chain, _ int, o *obs) {
+	{Name: "Model.Scan(&[]Partial)", Root: rootModel, Kind: kMulti, Proj: projPartial, Run: func(q *gorm.DB, c Chain, _ int, o *obs) {
 		var d []Partial
-		tx := c.apply(model(db), false).Scan(&d)
+		tx := q.Scan(&d)
 		for _, p := range d {
 			o.rows = append(o.rows, partialKey(p))
 		}
 		o.ra, o.err = tx.RowsAffected, tx.Error
+		o.tx = tx
 	}},
-	{Name: `Model.Pluck("id", &[]uint)`, Kind: kMulti, Proj: projID, Run: func(db *gorm.DB, c Chain, _ int, o *obs) {
+	{Name: `Model.Pluck("id", &[]uint)`, Root: rootModel, Kind: kMulti, Proj: projID, Run: func(q *gorm.DB, c Chain, _ int, o *obs) {
 		var d []uint
-		tx := c.apply(model(db), false).Pluck("id", &d)
+		tx := q.Pluck("id", &d)
 		for _, v := range d {
 			o.rows = append(o.rows, fmt.Sprint(v))
 		}
 		o.ra, o.err = tx.RowsAffected, tx.Error
+		o.tx = tx
 	}},
-	{Name: `Model.Pluck("a", &[]int64)`, Kind: kMulti, Proj: projA, Run: func(db *gorm.DB, c Chain, _ int, o *obs) {
+	{Name: `Model.Pluck("a", &[]int64)`, Root: rootModel, Kind: kMulti, Proj: projA, Run: func(q *gorm.DB, c Chain, _ int, o *obs) {
 		var d []int64
-		tx := c.apply(model(db), false).Pluck("a", &d)
+		tx := q.Pluck("a", &d)
 		for _, v := range d {
 			o.rows = append(o.rows, fmt.Sprint(v))
 		}
 		o.ra, o.err = tx.RowsAffected, tx.Error
+		o.tx = tx
 	}},
-	{Name: `Model.Pluck("B", &[]string)`, Kind: kMulti, Proj: projB, Run: func(db *gorm.DB, c Chain, _ int, o *obs) {
+	{Name: `Model.Pluck("B", &[]string)`, Root: rootModel, Kind: kMulti, Proj: projB, Run: func(q *gorm.DB, c Chain, _ int, o *obs) {
 		var d []string
-		tx := c.apply(model(db), false).Pluck("B", &d) // field name, resolved through the schema
+		tx := q.Pluck("B", &d) // field name, resolved through the schema
 		o.rows, o.ra, o.err = append([]string{}, d...), tx.RowsAffected, tx.Error
+		o.tx = tx
 	}},
-	{Name: `Model.Pluck("c", &[]*int)`, Kind: kMulti, Proj: projC, PtrPrim: true, Run: func(db *gorm.DB, c Chain, _ int, o *obs) {
+	{Name: `Model.Pluck("c", &[]*int)`, Root: rootModel, Kind: kMulti, Proj: projC, PtrPrim: true, Run: func(q *gorm.DB, c Chain, _ int, o *obs) {
 		var d []*int
-		tx := c.apply(model(db), false).Pluck("c", &d)
+		tx := q.Pluck("c", &d)
 		for _, v := range d {
 			o.rows = append(o.rows, normVal(v))
 		}
 		o.ra, o.err = tx.RowsAffected, tx.Error
+		o.tx = tx
 	}},
-	{Name: `Model.Pluck("c", &[]sql.NullInt64)`, Kind: kMulti, Proj: projC, Run: func(db *gorm.DB, c Chain, _ int, o *obs) {
+	{Name: `Model.Pluck("c", &[]sql.NullInt64)`, Root: rootModel, Kind: kMulti, Proj: projC, Run: func(q *gorm.DB, c Chain, _ int, o *obs) {
 		var d []sql.NullInt64
-		tx := c.apply(model(db), false).Pluck("c", &d)
+		tx := q.Pluck("c", &d)
 		for _, v := range d {
 			o.rows = append(o.rows, normVal(v))
 		}
 		o.ra, o.err = tx.RowsAffected, tx.Error
+		o.tx = tx
 	}},
-	{Name: `Table("items").Pluck("id", &[]int)`, Kind: kMulti, Proj: projID, Thorough: true, NoSchema: true, Run: func(db *gorm.DB, c Chain, _ int, o *obs) {
+	{Name: `Table("items").Pluck("id", &[]int)`, Root: rootTable, Kind: kMulti, Proj: projID, Thorough: true, NoSchema: true, Run: func(q *gorm.DB, c Chain, _ int, o *obs) {
 		var d []int
-		tx := c.apply(db.Table("items"), false).Pluck("id", &d)
+		tx := q.Pluck("id", &d)
 		for _, v := range d {
 			o.rows = append(o.rows, fmt.Sprint(v))
 		}
 		o.ra, o.err = tx.RowsAffected, tx.Error
+		o.tx = tx
 	}},
 
 	// ---- single-record destinations filled by Find / Scan -------------------
-	{Name: "Find(&Item)", Kind: kSingle, Run: func(db *gorm.DB, c Chain, _ int, o *obs) {
+	{Name: "Find(&Item)", Kind: kSingle, Run: func(q *gorm.DB, c Chain, _ int, o *obs) {
 		var d Item
-		tx := c.apply(db, false).Find(&d)
+		tx := q.Find(&d)
 		singleItem(d, o)
 		o.ra, o.err = tx.RowsAffected, tx.Error
+		o.tx = tx
 	}},
-	{Name: "Find(&*Item)", Kind: kSingle, Run: func(db *gorm.DB, c Chain, _ int, o *obs) {
+	{Name: "Find(&*Item)", Kind: kSingle, Run: func(q *gorm.DB, c Chain, _ int, o *obs) {
 		var d *Item
-		tx := c.apply(db, false).Find(&d)
+		tx := q.Find(&d)
 		if d != nil {
 			singleItem(*d, o)
 		}
 		o.ra, o.err = tx.RowsAffected, tx.Error
+		o.tx = tx
 	}},
-	{Name: "Model.Find(&map)", Kind: kSingle, Run: func(db *gorm.DB, c Chain, _ int, o *obs) {
+	{Name: "Model.Find(&map)", Root: rootModel, Kind: kSingle, Run: func(q *gorm.DB, c Chain, _ int, o *obs) {
 		d := map[string]interface{}{}
-		tx := c.apply(model(db), false).Find(&d)
+		tx := q.Find(&d)
 		singleMap(d, o)
 		o.ra, o.err = tx.RowsAffected, tx.Error
+		o.tx = tx
 	}},
-	{Name: "Model.Scan(&Item)", Kind: kSingle, Run: func(db *gorm.DB, c Chain, _ int, o *obs) {
+	{Name: "Model.Scan(&Item)", Root: rootModel, Kind: kSingle, Run: func(q *gorm.DB, c Chain, _ int, o *obs) {
 		var d Item
-		tx := c.apply(model(db), false).Scan(&d)
+		tx := q.Scan(&d)
 		singleItem(d, o)
 		o.ra, o.err = tx.RowsAffected, tx.Error
+		o.tx = tx
 	}},
-	{Name: "Model.Scan(&map)", Kind: kSingle, Run: func(db *gorm.DB, c Chain, _ int, o *obs) {
+	{Name: "Model.Scan(&map)", Root: rootModel, Kind: kSingle, Run: func(q *gorm.DB, c Chain, _ int, o *obs) {
 		d := map[string]interface{}{}
-		tx := c.apply(model(db), false).Scan(&d)
+		tx := q.Scan(&d)
 		singleMap(d, o)
 		o.ra, o.err = tx.RowsAffected, tx.Error
+		o.tx = tx
 	}},
 
 	// ---- primitive destinations ---------------------------------------------
-	{Name: `Model.Select("a").Scan(&int)`, Kind: kPrim, Proj: projA, Run: func(db *gorm.DB, c Chain, _ int, o *obs) {
+	{Name: `Model.Select("a").Scan(&int)`, Root: rootModel, Kind: kPrim, Proj: projA, Run: func(q *gorm.DB, c Chain, _ int, o *obs) {
 		d := -777
-		tx := c.apply(model(db), false).Select("a").Scan(&d)
+		tx := q.Select("a").Scan(&d)
 		o.prim, o.ra, o.err = fmt.Sprint(d), tx.RowsAffected, tx.Error
+		o.tx = tx
 	}},
-	{Name: `Model.Pluck("id", &uint)`, Kind: kPrim, Proj: projID, Run: func(db *gorm.DB, c Chain, _ int, o *obs) {
+	{Name: `Model.Pluck("id", &uint)`, Root: rootModel, Kind: kPrim, Proj: projID, Run: func(q *gorm.DB, c Chain, _ int, o *obs) {
 		var d uint = 777
-		tx := c.apply(model(db), false).Pluck("id", &d)
+		tx := q.Pluck("id", &d)
 		o.prim, o.ra, o.err = fmt.Sprint(d), tx.RowsAffected, tx.Error
+		o.tx = tx
 	}},
-	{Name: `Model.Select("b").Find(&string)`, Kind: kPrim, Proj: projB, Run: func(db *gorm.DB, c Chain, _ int, o *obs) {
+	{Name: `Model.Select("b").Find(&string)`, Root: rootModel, Kind: kPrim, Proj: projB, Run: func(q *gorm.DB, c Chain, _ int, o *obs) {
 		d := "unset"
-		tx := c.apply(model(db), false).Select("b").Find(&d)
+		tx := q.Select("b").Find(&d)
 		o.prim, o.ra, o.err = d, tx.RowsAffected, tx.Error
+		o.tx = tx
 	}},
 
 	// ---- Count -----------------------------------------------------------------
-	{Name: "Model.Count", Kind: kCount, Run: func(db *gorm.DB, c Chain, _ int, o *obs) {
+	{Name: "Model.Count", Root: rootModel, Kind: kCount, Run: func(q *gorm.DB, c Chain, _ int, o *obs) {
 		var n int64 = -1
-		tx := c.apply(model(db), false).Count(&n)
+		tx := q.Count(&n)
 		o.count, o.ra, o.err = n, -1, tx.Error
+		o.tx = tx
 	}},
-	{Name: `Table("items").Count`, Kind: kCount, Thorough: true, NoSchema: true, Run: func(db *gorm.DB, c Chain, _ int, o *obs) {
+	{Name: `Table("items").Count`, Root: rootTable, Kind: kCount, Thorough: true, NoSchema: true, Run: func(q *gorm.DB, c Chain, _ int, o *obs) {
 		var n int64 = -1
-		tx := c.apply(db.Table("items"), false).Count(&n)
+		tx := q.Count(&n)
 		o.count, o.ra, o.err = n, -1, tx.Error
+		o.tx = tx
 	}},
 
 	// ---- single-record finders -------------------------------------------------
-	{Name: "First(&Item)", Kind: kFinder, Run: func(db *gorm.DB, c Chain, _ int, o *obs) {
+	{Name: "First(&Item)", Kind: kFinder, Run: func(q *gorm.DB, c Chain, _ int, o *obs) {
 		var d Item
-		tx := c.apply(db, false).First(&d)
+		tx := q.First(&d)
 		singleItem(d, o)
 		o.ra, o.err = tx.RowsAffected, tx.Error
+		o.tx = tx
 	}},
-	{Name: "First(&Item, cond)", Kind: kFinder, Inline: true, Run: func(db *gorm.DB, c Chain, _ int, o *obs) {
+	{Name: "First(&Item, cond)", Kind: kFinder, Inline: true, Run: func(q *gorm.DB, c Chain, _ int, o *obs) {
 		var d Item
-		tx := c.apply(db, true).First(&d, c.inlineArgs()...)
+		tx := q.First(&d, c.inlineArgs()...)
 		singleItem(d, o)
 		o.ra, o.err = tx.RowsAffected, tx.Error
+		o.tx = tx
 	}},
-	{Name: "First(&*Item)", Kind: kFinder, Run: func(db *gorm.DB, c Chain, _ int, o *obs) {
+	{Name: "First(&*Item)", Kind: kFinder, Run: func(q *gorm.DB, c Chain, _ int, o *obs) {
 		var d *Item
-		tx := c.apply(db, false).First(&d)
+		tx := q.First(&d)
 		if d != nil {
 			singleItem(*d, o)
 		}
 		o.ra, o.err = tx.RowsAffected, tx.Error
+		o.tx = tx
 	}},
-	{Name: "Model.First(&map)", Kind: kFinder, Run: func(db *gorm.DB, c Chain, _ int, o *obs) {
+	{Name: "Model.First(&map)", Root: rootModel, Kind: kFinder, Run: func(q *gorm.DB, c Chain, _ int, o *obs) {
 		d := map[string]interface{}{}
-		tx := c.apply(model(db), false).First(&d)
+		tx := q.First(&d)
 		singleMap(d, o)
 		o.ra, o.err = tx.RowsAffected, tx.Error
+		o.tx = tx
 	}},
-	{Name: "Take(&Item)", Kind: kFinder, Run: func(db *gorm.DB, c Chain, _ int, o *obs) {
+	{Name: "Take(&Item)", Kind: kFinder, Run: func(q *gorm.DB, c Chain, _ int, o *obs) {
 		var d Item
-		tx := c.apply(db, false).Take(&d)
+		tx := q.Take(&d)
 		singleItem(d, o)
 		o.ra, o.err = tx.RowsAffected, tx.Error
+		o.tx = tx
 	}},
-	{Name: "Take(&Item, cond)", Kind: kFinder, Inline: true, Run: func(db *gorm.DB, c Chain, _ int, o *obs) {
+	{Name: "Take(&Item, cond)", Kind: kFinder, Inline: true, Run: func(q *gorm.DB, c Chain, _ int, o *obs) {
 		var d Item
-		tx := c.apply(db, true).Take(&d, c.inlineArgs()...)
+		tx := q.Take(&d, c.inlineArgs()...)
 		singleItem(d, o)
 		o.ra, o.err = tx.RowsAffected, tx.Error
+		o.tx = tx
 	}},
-	{Name: "Model.Take(&map)", Kind: kFinder, Run: func(db *gorm.DB, c Chain, _ int, o *obs) {
+	{Name: "Model.Take(&map)", Root: rootModel, Kind: kFinder, Run: func(q *gorm.DB, c Chain, _ int, o *obs) {
 		d := map[string]interface{}{}
-		tx := c.apply(model(db), false).Take(&d)
+		tx := q.Take(&d)
 		singleMap(d, o)
 		o.ra, o.err = tx.RowsAffected, tx.Error
+		o.tx = tx
 	}},
-	{Name: "Last(&Item)", Kind: kFinder, Last: true, Run: func(db *gorm.DB, c Chain, _ int, o *obs) {
+	{Name: "Last(&Item)", Kind: kFinder, Last: true, Run: func(q *gorm.DB, c Chain, _ int, o *obs) {
 		var d Item
-		tx := c.apply(db, false).Last(&d)
+		tx := q.Last(&d)
 		singleItem(d, o)
 		o.ra, o.err = tx.RowsAffected, tx.Error
+		o.tx = tx
 	}},
-	{Name: "Last(&Item, cond)", Kind: kFinder, Last: true, Inline: true, Run: func(db *gorm.DB, c Chain, _ int, o *obs) {
+	{Name: "Last(&Item, cond)", Kind: kFinder, Last: true, Inline: true, Run: func(q *gorm.DB, c Chain, _ int, o *obs) {
 		var d Item
-		tx := c.apply(db, true).Last(&d, c.inlineArgs()...)
+		tx := q.Last(&d, c.inlineArgs()...)
 		singleItem(d, o)
 		o.ra, o.err = tx.RowsAffected, tx.Error
+		o.tx = tx
 	}},
-	{Name: "Model.Last(&map)", Kind: kFinder, Last: true, Run: func(db *gorm.DB, c Chain, _ int, o *obs) {
+	{Name: "Model.Last(&map)", Root: rootModel, Kind: kFinder, Last: true, Run: func(q *gorm.DB, c Chain, _ int, o *obs) {
 		d := map[string]interface{}{}
-		tx := c.apply(model(db), false).Last(&d)
+		tx := q.Last(&d)
 		singleMap(d, o)
 		o.ra, o.err = tx.RowsAffected, tx.Error
+		o.tx = tx
 	}},
 
 	// ---- FindInBatches -----------------------------------------------------------
-	{Name: "FindInBatches(&[]Item)", Kind: kFIB, Run: func(db *gorm.DB, c Chain, batch int, o *obs) {
+	{Name: "FindInBatches(&[]Item)", Kind: kFIB, Run: func(q *gorm.DB, c Chain, batch int, o *obs) {
 		var d []Item
-		tx := c.apply(db, false).FindInBatches(&d, batch, func(tx *gorm.DB, n int) error {
+		tx := q.FindInBatches(&d, batch, func(tx *gorm.DB, n int) error {
 			o.batches = append(o.batches, rowKeys(d))
 			o.nums = append(o.nums, n)
 			o.cbRA = append(o.cbRA, tx.RowsAffected)
 			return nil
 		})
 		o.ra, o.err = tx.RowsAffected, tx.Error
+		o.tx = tx
 	}},
-	{Name: "FindInBatches(&[]*Item)", Kind: kFIB, LiteSkip: true, Run: func(db *gorm.DB, c Chain, batch int, o *obs) {
+	{Name: "FindInBatches(&[]*Item)", Kind: kFIB, LiteSkip: true, Run: func(q *gorm.DB, c Chain, batch int, o *obs) {
 		var d []*Item
-		tx := c.apply(db, false).FindInBatches(&d, batch, func(tx *gorm.DB, n int) error {
+		tx := q.FindInBatches(&d, batch, func(tx *gorm.DB, n int) error {
 			var b []string
 			for _, p := range d {
 				if p == nil {
@@ -435,6 +479,7 @@ var paths = []pathDef{
 			return nil
 		})
 		o.ra, o.err = tx.RowsAffected, tx.Error
+		o.tx = tx
 	}},
 }
 
@@ -445,37 +490,6 @@ func pathIndex(name string) int {
 		}
 	}
 	return -1
-}
-
-// runPath executes one path on a fresh chain and returns the observation plus
-// the driver log; a panic inside gorm is caught.
-func runPath(e *h.Env, p pathDef, c Chain, batch int, record bool) (o obs, events []string, panicMsg string) {
-	if record {
-		e.Rec.Reset()
-	} else {
-		e.Rec.Pause()
-	}
-	func() {
-		defer func() {
-			if r := recover(); r != nil {
-				panicMsg = fmt.Sprint(r)
-			}
-		}()
-		p.Run(e.DB, c, batch, &o)
-	}()
-	if record {
-		for _, ev := range e.Rec.Events() {
-			if ev.IsStatement() {
-				events = append(events, ev.String())
-			}
-		}
-	} else {
-		e.Rec.Resume()
-	}
-	if l := e.Leaks(); l != "" {
-		panicMsg += "LEAK: " + l
-	}
-	return
 }
 
 // expect holds what the reference model says about one chain (computed once per chain).
